@@ -262,7 +262,9 @@ func randLegacy(r *c.Rng, side string) Case {
 }
 
 func runLegacy(o *c.Out, k Case) {
+	k.LogLevel = setLogLevel(pickLevel(o, k.LogLevel))
 	execLegacy(&k)
+	o.Count(k.Side + ":log-level=" + k.LogLevel)
 	nonNoop := 0
 	for _, a := range k.Actions {
 		if a.Kind != kNoop {
